@@ -199,7 +199,7 @@ func (r *ecRunner[P, B, S]) run(x *engine.X, c ecCase) {
 	net := func() *schednet.Net { return schednet.New(proto.Sorted(quorum)...) }
 	keyFail := func(err error) {
 		if !outside(x, err, where) {
-			x.Failf(c.proto+"/keygen/"+c.kg, "%s: key generation failed: %s", where, errStr(err))
+			x.Failf(c.proto+"/keygen/"+c.kg, "%s: key generation failed\n    error: %s", where, errStr(err))
 		}
 	}
 	switch c.proto {
@@ -279,13 +279,13 @@ func (r *ecRunner[P, B, S]) run(x *engine.X, c ecCase) {
 		panic(engine.HarnessError{Msg: out.Info.HarnessErr})
 	}
 	if out.Refused != nil {
-		x.Failf(fk+"/refused-qualified", "%s: a cosigner constructor refused a QUALIFIED quorum: %s", where, errsString(out.Errs))
+		x.Failf(fk+"/refused-qualified", "%s: a cosigner constructor refused a QUALIFIED quorum\n    errors: %s", where, errsString(out.Errs))
 		return
 	}
 	// (1) everybody who should end with the signature has it
 	for _, w := range out.Want {
 		if _, ok := out.Sigs[w]; !ok {
-			x.Failf(fk+"/no-output/"+holderClass(w), "%s: %s obtained no signature: %s", where, w, errsString(out.Errs))
+			x.Failf(fk+"/no-output/"+holderClass(w), "%s: %s obtained no signature\n    errors: %s", where, w, errsString(out.Errs))
 		}
 	}
 	if len(out.Sigs) == 0 {
@@ -317,7 +317,7 @@ func (r *ecRunner[P, B, S]) run(x *engine.X, c ecCase) {
 		panic(engine.HarnessError{Msg: err.Error()})
 	}
 	if err := vf.Verify(firstSig, pkObj, raw); err != nil {
-		x.Failf(fk+"/library-verifier-rejects", "%s: the library verifier rejects r||s||v = %x: %v", where, first, err)
+		x.Failf(fk+"/library-verifier-rejects", "%s: the library verifier rejects r||s||v = %x\n    error: %v", where, first, err)
 	}
 	// (5) the next message of the alphabet
 	ni := nextMsg(c.msg)
